@@ -35,6 +35,9 @@ pub fn gen_corpus_spec(rng: &mut Prng) -> Spec {
         let at = rng.below(ops.len() as u64 + 1) as usize;
         ops.insert(at, Op::Fork);
     }
+    if maybe_long_haul(rng, &mut ops, 100) {
+        spec.variant = "corpus_det_long_haul".into();
+    }
     spec.ops = ops;
     spec
 }
@@ -129,6 +132,9 @@ pub fn exec_corpus(spec: &Spec, st: &mut Stats) -> Vec<u64> {
     }
     for (i, op) in spec.ops.iter().enumerate() {
         st.sig(&[kind.id(), op.code(), spec.seed.as_ref().map(|s| s.route()).unwrap_or(9)]);
+        if matches!(op, Op::Fill(n) if *n >= 4 * 65_536) {
+            st.count("probe:long_haul");
+        }
         let ok = step(&mut g, op, st, i);
         per_op.push(st.log.finish());
         if !ok {
